@@ -122,12 +122,24 @@ func HC19Recount() {
 			if k1 == 3 && s1 == 100 {
 				vr.Cover("XR first in a compound packet")
 			}
-		case 3: // outgoing RTCP compound
+		case 3: // outgoing RTCP compound of two packets (intervalpli writes one PLI per stream in one batch)
 			k1 := vr.Concretize(vr.NondetInt(0, 2))
+			k2 := vr.Concretize(vr.NondetInt(0, 2))
 			p1, s1 := c19rtcp(k1)
-			st = r.recordOutgoingRTCP(st, &outgoingRTCP{ts: c19epoch, pkts: []rtcp.Packet{p1}})
-			if s1 == 100 {
-				switch k1 {
+			p2, s2 := c19rtcp(k2)
+			st = r.recordOutgoingRTCP(st, &outgoingRTCP{ts: c19epoch, pkts: []rtcp.Packet{p1, p2}})
+			for i, k := range [2]int{k1, k2} {
+				s := s1
+				if i == 1 {
+					s = s2
+				}
+				if s != 100 {
+					continue
+				}
+				if i == 1 && s1 != 100 {
+					vr.Cover("outgoing feedback for the stream after one for another stream")
+				}
+				switch k {
 				case 0:
 					outNack++
 				case 1:
@@ -195,5 +207,104 @@ func HC19RTT() {
 		}
 		vr.Cover("no matching sender report")
 		vr.Assert(ri.RoundTripTimeMeasurements == 0 && ri.RoundTripTime == 0, "no matching sender report: no measurement")
+	}
+}
+
+// HC19DLRR: round-trip time from XR DLRR: outgoing receiver reference time reports are remembered;
+// an incoming XR with a DLRR block holding two sub-reports (for this stream and/or another one)
+// yields one measurement per sub-report that is addressed to this SSRC and matches a remembered
+// reference time, RTT = arrival - DLRR - send time of that reference; sub-reports for other SSRCs
+// never count for this stream.
+func HC19DLRR() {
+	r := newRecorder(100, 90000, logging.NewDefaultLoggerFactory())
+	st := internalStats{}
+	nrr := vr.Param("rrs", 2)
+	var ntps [8]uint64
+	for i := 0; i < nrr; i++ {
+		ntps[i] = uint64(0xE0000000+uint32(i)*7)<<32 | uint64(vr.NondetU32())
+		xr := &rtcp.ExtendedReport{SenderSSRC: 100, Reports: []rtcp.ReportBlock{&rtcp.ReceiverReferenceTimeReportBlock{NTPTimestamp: ntps[i]}}}
+		st = r.recordOutgoingRTCP(st, &outgoingRTCP{ts: c19epoch, pkts: []rtcp.Packet{xr}})
+	}
+	el := time.Duration(vr.NondetInt(0, 1<<30))
+	ts := c19epoch.Add(el)
+	var subs [2]rtcp.DLRRReport
+	var want [2]bool
+	var wantRTT [2]time.Duration
+	for j := 0; j < 2; j++ {
+		k := vr.Concretize(vr.NondetInt(0, nrr))
+		s := uint32(100 + 100*vr.Concretize(vr.NondetInt(0, 1)))
+		delay := uint32(vr.Param("dbase", 1)) + uint32(vr.NondetInt(0, 1<<uint(vr.Param("dbits", 16))-1))
+		lrr := uint32(0x12345678)
+		if k < nrr {
+			lrr = uint32(ntps[k] >> 16)
+		}
+		vr.Assume(lrr != 0)
+		subs[j] = rtcp.DLRRReport{SSRC: s, LastRR: lrr, DLRR: delay}
+		if k < nrr && s == 100 {
+			want[j] = true
+			dlrr := time.Duration(uint64(delay) * 1953125 / 128)
+			wantRTT[j] = ts.Add(-dlrr).Sub(ntp.ToTime(ntps[k]))
+		}
+	}
+	vr.Assume(subs[0].SSRC == 100 || subs[1].SSRC == 100)
+	xr := &rtcp.ExtendedReport{SenderSSRC: 1, Reports: []rtcp.ReportBlock{&rtcp.DLRRReportBlock{Reports: subs[:]}}}
+	st = r.recordIncomingRTCP(st, &incomingRTCP{ts: ts, pkts: []rtcp.Packet{xr}})
+	ro := st.RemoteOutboundRTPStreamStats
+	n := uint64(0)
+	var total, lastRTT time.Duration
+	for j := 0; j < 2; j++ {
+		if want[j] {
+			n++
+			total += wantRTT[j]
+			lastRTT = wantRTT[j]
+		}
+	}
+	if subs[0].SSRC != subs[1].SSRC {
+		vr.Cover("sub-report for another stream")
+	}
+	vr.Assert(ro.RoundTripTimeMeasurements == n, "one measurement per matching DLRR sub-report addressed to this SSRC")
+	if n <= 1 {
+		vr.Assert(ro.TotalRoundTripTime == total, "total accumulates exactly the matching measurements")
+	}
+	if n > 0 {
+		vr.Cover("matching reference time")
+		vr.Assert(ro.RoundTripTime == lastRTT, "RTT = arrival - DLRR - send time of the matching reference time report")
+	} else {
+		vr.Assert(ro.RoundTripTime == 0, "no matching sub-report: no measurement")
+	}
+}
+
+// HC12StatsLists (property C12): the recorder's remembered sender reports and receiver reference
+// times stay bounded by their configured maximum (5) however many reports are written, and hold the
+// most recent ones in order.
+func HC12StatsLists() {
+	n := vr.Param("reports", 8)
+	r := newRecorder(100, 90000, logging.NewDefaultLoggerFactory())
+	st := internalStats{}
+	var srs, rrs [16]uint64
+	ns, nr := 0, 0
+	for i := 0; i < n; i++ {
+		v := vr.NondetU64()
+		if vr.Concretize(vr.NondetInt(0, 1)) == 0 {
+			st = r.recordOutgoingRTCP(st, &outgoingRTCP{ts: c19epoch, pkts: []rtcp.Packet{&rtcp.SenderReport{SSRC: 100, NTPTime: v}}})
+			srs[ns] = v
+			ns++
+		} else {
+			xr := &rtcp.ExtendedReport{SenderSSRC: 100, Reports: []rtcp.ReportBlock{&rtcp.ReceiverReferenceTimeReportBlock{NTPTimestamp: v}}}
+			st = r.recordOutgoingRTCP(st, &outgoingRTCP{ts: c19epoch, pkts: []rtcp.Packet{xr}})
+			rrs[nr] = v
+			nr++
+		}
+		vr.Assert(len(st.lastSenderReports) <= 5 && len(st.lastReceiverReferenceTimes) <= 5, "remembered report lists never exceed their maximum")
+		vr.Assert(len(st.lastSenderReports) == min(ns, 5) && len(st.lastReceiverReferenceTimes) == min(nr, 5), "the lists hold the most recent reports")
+	}
+	if ns > 5 {
+		vr.Cover("sender report list saturated")
+	}
+	for k := 0; k < len(st.lastSenderReports); k++ {
+		vr.Assert(st.lastSenderReports[k] == srs[ns-len(st.lastSenderReports)+k], "sender reports remembered in order, newest last")
+	}
+	for k := 0; k < len(st.lastReceiverReferenceTimes); k++ {
+		vr.Assert(st.lastReceiverReferenceTimes[k] == rrs[nr-len(st.lastReceiverReferenceTimes)+k], "reference times remembered in order, newest last")
 	}
 }
